@@ -16,15 +16,15 @@ MGR_OPS = {"enter_context": False, "push_mgr": False, "enter_async_context": Tru
 
 
 def plain(a):
-    return {"k": "plain", "async": a, "yf": False, "body": [], "ops": []}
+    return {"k": "plain", "async": a, "yf": False, "body": [], "ops": [], "popped": 0, "suspend": False}
 
 
 def gcm(a, body, yf=False):
-    return {"k": "gcm", "async": a, "yf": yf, "body": body, "ops": []}
+    return {"k": "gcm", "async": a, "yf": yf, "body": body, "ops": [], "popped": 0, "suspend": False}
 
 
 def stack(a, ops):
-    return {"k": "stack", "async": a, "yf": False, "body": [], "ops": ops}
+    return {"k": "stack", "async": a, "yf": False, "body": [], "ops": ops, "popped": 0, "suspend": False}
 
 
 def op(name, node=None):
@@ -137,6 +137,18 @@ def check(ctx):
             e = len(entries)
             entries.append({"root": t, "exiting": True})
             cases.append({"root": t, "exiting": True, "entry": e})
+        if t["async"] and t["k"] == "stack" and not any(o["op"] in ("pop_all", "close") for o in t["ops"]):
+            # observed while the stack is unwinding: one more async manager, registered last, suspends in its
+            # __aexit__; it has been popped, every earlier registration is still pending
+            t2 = json.loads(json.dumps(t))
+            last = plain(True)
+            last["suspend"] = True
+            t2["ops"].append(op("enter_async_context", last))
+            t2["popped"] = 1
+            renumber(t2)
+            e = len(entries)
+            entries.append({"root": t2, "exiting": True})
+            cases.append({"root": t2, "exiting": True, "entry": e})
     d = BUILD / "c09"
     d.mkdir(parents=True, exist_ok=True)
     gpath = d / "given.json"
